@@ -1,3 +1,4 @@
+import WmModel.Props.C04Prod
 import WmModel.Props.C05Prod
 import WmModel.Props.C05Reg
 import WmModel.Props.C04Exit
@@ -17,3 +18,8 @@ import WmModel.Props.C11
 #print axioms Wm.GcProd.publications_are_the_log
 #print axioms Wm.GcProd.exactly_once_when_all_acked
 #print axioms Wm.GcProd.prod_witness
+
+#print axioms Wm.GcProd.send_starts_sender_for_registered
+#print axioms Wm.GcProd.send_starts_nothing_for_other_topics
+#print axioms Wm.GcProd.no_sender_is_lost
+#print axioms Wm.GcProd.delivery_witness
